@@ -669,6 +669,34 @@ func ZZ_S08c_CancelHedge() {
 		b = b.CancelOnResult(12345) // nothing the attempts produce matches: a result is accepted only when all attempts finished
 	}
 	hp := b.Build()
+	fn := func(e failsafe.Execution[int]) (int, error) {
+		zzvrt.CtrAdd("starts", 1)
+		if zzvrt.CtrGet("fired") == 1 {
+			zzvrt.CtrAdd("startsAfterCancel", 1)
+		}
+		<-e.Canceled() // cooperating: returns as soon as it is cancelled
+		return 0, errA
+	}
+	// the source: the caller's context, or (async) the ExecutionResult
+	viaResult := zzvrt.Choose("cancel-through-result", 2) == 1
+	var err error
+	if viaResult {
+		res := failsafe.NewExecutor[int](hp).GetWithExecutionAsync(fn)
+		zzvrt.Sleep(c)
+		zzvrt.CellSet("firedAt", zzvrt.Now())
+		res.Cancel()
+		zzvrt.CtrAdd("fired", 1)
+		_, err = res.Get()
+		end := zzvrt.Now()
+		zzvrt.Quiesce()
+		zzvrt.Assert(errors.Is(err, failsafe.ErrExecutionCanceled), "cancel: ExecutionResult.Cancel before a hedged execution completes is reported as ErrExecutionCanceled")
+		zzvrt.Assert(zzvrt.CtrGet("startsAfterCancel") <= 1, "cancel: at most one further attempt starts after the cancellation")
+		zzvrt.Assert(end == zzvrt.CellGet("firedAt"), "cancel: a hedged execution completes without waiting out the remaining hedge delay")
+		zzvrt.Assert(zzvrt.Live() == 0, "leak: no library goroutine left after a cancelled hedged execution")
+		zzvrt.Assert(zzvrt.ArmedTimers() == 0, "leak: no library timer left armed after a cancelled hedged execution")
+		zzvrt.Reach("cancel-hedge-result-done")
+		return
+	}
 	ctx, cancel := context.WithCancel(context.Background())
 	go func() {
 		zzvrt.Sleep(c)
@@ -676,14 +704,7 @@ func ZZ_S08c_CancelHedge() {
 		cancel()
 		zzvrt.CtrAdd("fired", 1)
 	}()
-	_, err := failsafe.NewExecutor[int](hp).WithContext(ctx).GetWithExecution(func(e failsafe.Execution[int]) (int, error) {
-		zzvrt.CtrAdd("starts", 1)
-		if zzvrt.CtrGet("fired") == 1 {
-			zzvrt.CtrAdd("startsAfterCancel", 1)
-		}
-		<-e.Canceled() // cooperating: returns as soon as it is cancelled
-		return 0, errA
-	})
+	_, err = failsafe.NewExecutor[int](hp).WithContext(ctx).GetWithExecution(fn)
 	end := zzvrt.Now()
 	zzvrt.Quiesce()
 	zzvrt.Assert(errors.Is(err, context.Canceled), "cancel: a cancelled hedged execution reports context.Canceled")
